@@ -721,7 +721,16 @@ func raceLogSince(mark int64) string {
 
 // ---- generator -------------------------------------------------------------------------------------------------------
 
+// c16ManagerTheme: operations around one manager's connection life cycle and the sockets that follow it
+var c16ManagerTheme = []c16Op{{Side: "cs", Code: 6}, {Side: "cs", Code: 7}, {Side: "cs", Code: 15}, {Side: "cs", Code: 16}, {Side: "cs", Code: 17}, {Side: "cs", Code: 16}, {Side: "cs", Code: 17},
+	{Side: "mgr", Code: 0}, {Side: "mgr", Code: 1}, {Side: "mgr", Code: 8}, {Side: "mgr", Code: 6}, {Side: "cs", Code: 0}, {Side: "ss", Code: 19}, {Side: "nsp", Code: 13}}
+
 func genC16Op(t *rapid.T, clients int, allowHeavy bool) c16Op {
+	if allowHeavy && c16Theme == "manager" && rapid.IntRange(0, 3).Draw(t, "themed") != 0 {
+		op := rapid.SampledFrom(c16ManagerTheme).Draw(t, "themeOp")
+		op.Who, op.Arg, op.Via = rapid.IntRange(0, clients-1).Draw(t, "who"), rapid.IntRange(0, 23).Draw(t, "arg"), rapid.SampledFrom([]string{"direct", "direct", "event"}).Draw(t, "via")
+		return op
+	}
 	side := rapid.SampledFrom([]string{"ss", "ss", "ss", "cs", "cs", "cs", "nsp", "nsp", "mgr"}).Draw(t, "side")
 	op := c16Op{Side: side, Who: rapid.IntRange(0, clients-1).Draw(t, "who"), Arg: rapid.IntRange(0, 23).Draw(t, "arg"),
 		Via: rapid.SampledFrom([]string{"direct", "direct", "direct", "event", "ack"}).Draw(t, "via")}
@@ -753,11 +762,17 @@ func genC16Op(t *rapid.T, clients int, allowHeavy bool) c16Op {
 	return op
 }
 
+var c16Theme string // set per generated case (the generator runs on one goroutine)
+
 func genC16Case(t *rapid.T) c16Case {
 	c := c16Case{Procs: rapid.SampledFrom([]int{1, 2, 4, 16}).Draw(t, "procs"), Transport: rapid.SampledFrom([]string{"polling", "websocket", "upgrade"}).Draw(t, "transport"),
 		Clients: rapid.IntRange(1, 3).Draw(t, "clients"), Recovery: rapid.IntRange(0, 3).Draw(t, "recovery") == 0,
 		YieldEvery: rapid.SampledFrom([]int{0, 1, 2, 5}).Draw(t, "yield")}
 	heavy := rapid.IntRange(0, 2).Draw(t, "heavy") == 0
+	c16Theme = ""
+	if heavy && rapid.Bool().Draw(t, "managerTheme") {
+		c16Theme = "manager" // a sixth of the programs
+	}
 	if rapid.IntRange(0, 1).Draw(t, "lifecycleOps") == 1 {
 		for i := 0; i < 5; i++ {
 			op := genC16Op(t, c.Clients, false)
@@ -793,7 +808,8 @@ func TestC16_Programs(t *testing.T) {
 	ev := NewEv(t, "C16", c16Check, "rapid-generated concurrent programs on a real server + 1..3 real clients over memnet on the real clock, built with -race: 2..16 goroutines x 5..40 operations over "+
 		"ServerSocket (22 op kinds), ClientSocket (18), Namespace/Server/Adapter (16), Manager (10, including Close / Disconnect / Connect / Open issued from inside OnceOpen and OnceClose handlers): emits with/without ack/timeout/volatile/binary, join/leave/rooms, broadcasts through sockets and namespaces, "+
 		"SocketsJoin/Leave/DisconnectSockets/FetchSockets, On/Once/Off of events and lifecycle handlers, Use, SetAuth, Connect/Disconnect/Open/Close, Server.Close; a third of the operations are performed from inside "+
-		"an event handler or an ack callback of the addressed side, five more from connection/disconnecting/disconnect/connect handlers; GOMAXPROCS in {1,2,4,16}; yields at the hook sites; "+
+		"an event handler or an ack callback of the addressed side, five more from connection/disconnecting/disconnect/connect handlers; GOMAXPROCS in {1,2,4,16}; yields at the hook sites; a sixth of the programs concentrate on one manager's connection life cycle (Open/Close/Connect/Disconnect of several sockets "+
+		"of one manager); "+
 		"oracle: no race report (runtime.RaceErrors delta per program; the report is read from the GORACE log), program + epilogue (every socket, manager and the namespace still operable, ack round trip) + teardown return "+
 		"(a phase that does not return is decided by two goroutine dumps 10 s apart showing the same goroutines parked in repository frames), no panic; "+
 		"non-trivial = >= 3 goroutines touching one client's sockets or the namespace and >= 1 operation issued from a handler")
